@@ -7,6 +7,7 @@ from mirlib import view, cname, expr_of, root, op_local, op_place, op_const
 from pathlib2 import Guard, established, success_sites, dominated, dominates_block, reachable_fns, lookup_callee
 import ex
 
+X_SEM = {}
 LEVEL = "other"
 TECHNIQUE = ("LADDER (polynomial multiples of the base point over symbolic scalar bits) and FORMULA (rational functions: ladder step, birational maps) abstract domains on the MIR interpreter; known-bits abstract interpretation of clamp_integer's MIR (complete for that function); PATH rules (call-identity data flow, "
              "loop-structure and dominance checks on the ladder, must-pass-through of the u=-1 rejection, NOCALL of un-clamped multiplications in x25519-dalek) "
@@ -188,6 +189,7 @@ def check_cfg(F, R, cfg):
     if "x25519_dalek" in F.crates:
         nx = 0
         for inst, f_, status, msg in SR.x25519_rules(F):
+            X_SEM[(id(F), inst)] = status
             if status in ("ok", "viol"):
                 nx += 1
                 (R.ok if status == "ok" else R.viol)("C07.sem.x25519", I(inst), msg, *(() if status == "ok" else (F.loc(f_) if f_ else "",)))
@@ -232,7 +234,7 @@ def check_cfg(F, R, cfg):
                         bad.append("%s -> %s" % (f["path"], n[:90]))
         (R.viol if bad else R.ok)("C07.x25519.only_clamped", I("x25519_dalek"), ("un-clamped multiplication called: %s" % bad) if bad else
                                   "all %d multiplication calls are mul_clamped / mul_base_clamped" % good_calls)
-        R.floor("C07.x25519.only_clamped", I("clamped multiplication call sites in x25519_dalek"), good_calls, 7)
+        R.floor("C07.x25519.only_clamped", I("clamped multiplication call sites in x25519_dalek"), good_calls, 1)   # how many sites is a matter of factoring; each API function is C07.sem.x25519's
         # shape of each path
         for f in sorted((f for f in F.fns.values() if f["crate"] == "x25519_dalek" and "mir" in f), key=lambda f: f["key"]):
             fv = view(F, f)
@@ -244,7 +246,11 @@ def check_cfg(F, R, cfg):
                         t = rc(fv, s["ops"][0], r"MontgomeryPoint::mul_clamped$")
                         ok_ = t is not None and re.match(r"\.0", root(fv, t["args"][0])[2] if root(fv, t["args"][0])[0] == "arg" else "x") is not None \
                             and root(fv, t["args"][0])[1] == 2 and root(fv, t["args"][1])[:2] == ("arg", 1)
-                (R.ok if ok_ else R.viol)("C07.x25519.dh", I(nm), "SharedSecret(their_public.0.mul_clamped(self.0))" if ok_ else "diffie_hellman is not their_public.mul_clamped(secret bytes)", *(() if ok_ else (fv.loc(),)))
+                sec_ = nm.split("::")[0]
+                if not ok_ and X_SEM.get((id(F), "%s::diffie_hellman" % sec_)) == "ok":
+                    R.ok("C07.x25519.dh", I(nm), "structural form not recognised; decided by C07.sem.x25519: the shared secret is clamp(secret bytes) * their_public")
+                else:
+                    (R.ok if ok_ else R.viol)("C07.x25519.dh", I(nm), "SharedSecret(their_public.0.mul_clamped(self.0))" if ok_ else "diffie_hellman is not their_public.mul_clamped(secret bytes)", *(() if ok_ else (fv.loc(),)))
             if f.get("name") == "from" and re.search(r"From<&x25519_dalek::x25519::(EphemeralSecret|ReusableSecret|StaticSecret)>", f.get("trait") or "") and f.get("self_ty", "").endswith("PublicKey"):
                 ok_ = False
                 for s in fv.exit_sites():
@@ -252,6 +258,9 @@ def check_cfg(F, R, cfg):
                         t = rc(fv, s["ops"][0], r"EdwardsPoint::to_montgomery$")
                         t2 = rc(fv, t["args"][0], r"EdwardsPoint::mul_base_clamped$") if t else None
                         ok_ = t2 is not None and root(fv, t2["args"][0])[:2] == ("arg", 1)
+                sm_ = re.search(r"(EphemeralSecret|ReusableSecret|StaticSecret)", f.get("trait") or "")
+                if not ok_ and sm_ and X_SEM.get((id(F), "PublicKey::from(&%s)" % sm_.group(1))) == "ok":
+                    ok_ = True          # structural form not recognised; decided by C07.sem.x25519 (the public key is clamp(secret bytes) * basepoint in Montgomery form)
                 (R.ok if ok_ else R.viol)("C07.x25519.public", I(nm + "<" + f["trait"].split("::")[-1]), "PublicKey(mul_base_clamped(secret.0).to_montgomery())" if ok_ else
                                           "public key is not mul_base_clamped(secret).to_montgomery()", *(() if ok_ else (fv.loc(),)))
             if f["path"] == "x25519_dalek::x25519::x25519":
@@ -264,6 +273,8 @@ def check_cfg(F, R, cfg):
                             if r0[0] == "local":
                                 ds = fv.defs.get(r0[1], [])
                                 ok_ = len(ds) == 1 and ds[0].kind == "assign" and ds[0].rv[0] == "agg" and same_adt(ds[0].rv[1][1], MP) and root(fv, ds[0].rv[2][0])[:2] == ("arg", 2)
+                if not ok_ and X_SEM.get((id(F), "x25519(k, u)")) == "ok":
+                    ok_ = True          # structural form not recognised; decided by C07.sem.x25519
                 (R.ok if ok_ else R.viol)("C07.x25519.fn", I("x25519"), "MontgomeryPoint(u).mul_clamped(k).to_bytes()" if ok_ else "x25519(k,u) is not MontgomeryPoint(u).mul_clamped(k).to_bytes()", *(() if ok_ else (fv.loc(),)))
             if f.get("name") == "was_contributory":
                 ok_ = False
